@@ -231,6 +231,54 @@ fn directive_cases(thorough: bool) -> Vec<Case> {
     v
 }
 
+/// "duplicate ... same-kind type definitions": two definitions of one name are rejected wherever extensions of that name
+/// stand between, before or after them; one definition with extensions in any order is accepted
+fn duplicate_cases() -> Vec<Case> {
+    let mut v = vec![];
+    let base = "directive @tag(name: String) repeatable on SCALAR | OBJECT | INTERFACE | UNION | ENUM | INPUT_OBJECT\ntype Query { q: Int }\ntype K { k: Int }\ntype L { l: Int }\ntype M1 { m: Int }\ntype M2 { m: Int }\n";
+    // per kind: [definition 1, definition 2, extension 1, extension 2]
+    let kinds: [(&str, [&str; 4]); 6] = [
+        ("scalar", ["scalar X", "scalar X @tag(name: \"d2\")", "extend scalar X @tag(name: \"x1\")", "extend scalar X @tag(name: \"x2\")"]),
+        ("type", ["type X { a: Int }", "type X { b: Int }", "extend type X { x1: Int }", "extend type X @tag(name: \"x2\")"]),
+        ("interface", ["interface X { a: Int }", "interface X { b: Int }", "extend interface X { x1: Int }", "extend interface X @tag(name: \"x2\")"]),
+        ("union", ["union X = K", "union X = L", "extend union X = M1", "extend union X = M2"]),
+        ("enum", ["enum X { A }", "enum X { B }", "extend enum X { X1 }", "extend enum X { X2 }"]),
+        ("input", ["input X { a: Int }", "input X { b: Int }", "extend input X { x1: Int }", "extend input X { x2: Int }"]),
+    ];
+    fn perms(items: &[usize]) -> Vec<Vec<usize>> {
+        if items.len() <= 1 {
+            return vec![items.to_vec()];
+        }
+        let mut out = vec![];
+        for i in 0..items.len() {
+            let mut rest = items.to_vec();
+            let x = rest.remove(i);
+            for mut p in perms(&rest) {
+                p.insert(0, x);
+                out.push(p);
+            }
+        }
+        out
+    }
+    let names = ["definition", "second definition", "extension", "second extension"];
+    for (kind, texts) in kinds {
+        let sets: [(&[usize], bool); 8] = [(&[0, 1], false), (&[0, 1, 2], false), (&[0, 1, 2, 3], false), (&[0], true), (&[0, 2], true), (&[0, 2, 3], true), (&[1, 3], true), (&[1], true)];
+        for (set, ok) in sets {
+            for order in perms(set) {
+                let body: String = order.iter().map(|i| format!("{}\n", texts[*i])).collect();
+                v.push(Case {
+                    family: "duplicate definitions",
+                    label: format!("{kind}: {}", order.iter().map(|i| names[*i]).collect::<Vec<_>>().join(", ")),
+                    schema: format!("{base}{body}"),
+                    expect_valid: ok,
+                    why: if ok { format!("one {kind} definition with its extensions in any order is valid") } else { format!("the {kind} is defined twice") },
+                });
+            }
+        }
+    }
+    v
+}
+
 fn main() {
     let args: Vec<String> = std::env::args().collect();
     let thorough = args.get(1).map(|a| a == "thorough").unwrap_or(false);
@@ -238,6 +286,7 @@ fn main() {
     let clip = std::env::var("VX_CLI").unwrap_or_default();
     let mut cases = implementation_cases(thorough);
     cases.extend(directive_cases(thorough));
+    cases.extend(duplicate_cases());
     let tmp = std::env::temp_dir().join(format!("vx-tsverdict-{}", std::process::id()));
     let config = "schema: ./schema/*.graphql\n".to_string();
     let results = cli::par_map(cases.len(), &tmp, |i, dir| {
